@@ -279,6 +279,7 @@ S("c15_reqqueue", 400, 12000),   # REQ with requests queued before the connectio
                           "position of a small frame on nng's read side and/or write side)",
         "budget_s": {"quick": 50, "thorough": 900},
         "scenarios": [
+            S("c01_fanout", 600, 18000),    # one send fanned out to several receivers that scribble over their copies (scenarios/c01b_fanout.cc)
             S("c01_link", 1700, 33000),
             S("c01_wire", 2000, 39000),
             S("c01_cuts", 900, 18000),
